@@ -15,6 +15,16 @@ CHECKS = {
    note="Trusted: Coq kernel; extraction + driver; the harness's injective numbering of int/tuple items; CPython set semantics (iteration order is quantified away). Axioms: none.",
    technique="Coq proof of a worklist-closure model + extracted-model/implementation correspondence",
    design="5 C07, Appendix A"),
+ "C01": dict(
+   text="Proof (emission half, plus verified per-case invariant check): for every component object satisfying the invariant WF, re-reading the emitted PIL lines through their own definitions yields exactly the nucleotides (domain, offset, orientation) of every strand and of every non-empty sequence / super-sequence, defines nothing else, drops only zero-length items, and complement views flatten to reverse complements (7 theorems, closed). WF is established for each compiled case by the verified checker wf_check; the compile model itself (dispatch, clean_const, SuperSequence incl. deferred wildcard, anonymous counter, structures, kinetics, ports) is tied to the code by correspondence on generated programs, and the denotation predicate is evaluated on the real .pil.",
+   note="Trusted: Coq kernel; extraction/driver; harness/pepper.py (AST printer with random spelling, .pil reader, Python transcription of den_src/den_pil used by the search); regex layer exercised not modelled. Partial: 'every accepted program yields a WF object' is checked per case by a proved-sound checker, not yet proved for all programs. Axioms: none.",
+   technique="Coq proof about the emit/re-read model + extracted-model/implementation correspondence",
+   design="5 C01"),
+ "C08": dict(
+   text="Proof: HU expansion is always balanced (nested induction), run-length/plain notation is accepted iff its flattening balances and yields the flattening, every spelling of one balanced string compiles to that string, dot-paren -> HU -> dot-paren is the identity on every parse tree, accepted domain-level structures are balanced with per-strand lengths equal to the summed domain lengths, and Structure's check pins each segment to its strand (9 theorems, closed). Correspondence runs HU2dotParen / extended2dotParen / dotParen2HU / parse_structure_statement / add_structure on random structures in random spellings, corrupted strings and domain-level cases.",
+   note="Trusted: Coq kernel; extraction/driver; pyparsing lexing exercised with random spacing but not modelled (DotParen_grammar acceptance is modelled as parenthesis balance). Axioms: none.",
+   technique="Coq proofs on the notation model + extracted-model/implementation correspondence",
+   design="5 C08"),
 }
 
 checks = []
